@@ -1,7 +1,1008 @@
-//! C12 — Merkle commitments (see DESIGN.md §C12).
+//! C12 — Merkle commitments open only to the committed leaf at the committed position
+//! (see DESIGN.md §C12). Oracle: `oracle::merkle_ref` (level-by-level reference trees, textbook
+//! path walk, set-based path compression). The primitive hashes `hash_or_noop` / `two_to_one` are
+//! the library's (judged by C13); the tree logic is judged here.
 
-use crate::engine::Ctx;
+use plonky2::hash::batch_merkle_tree::BatchMerkleTree;
+use plonky2::hash::hash_types::{BytesHash, HashOut};
+use plonky2::hash::keccak::KeccakHash;
+use plonky2::hash::merkle_proofs::{
+    verify_batch_merkle_proof_to_cap, verify_merkle_proof, verify_merkle_proof_to_cap, MerkleProof,
+};
+use plonky2::hash::merkle_tree::{MerkleCap, MerkleTree};
+use plonky2::hash::poseidon::PoseidonHash;
+use plonky2::plonk::config::{GenericHashOut, Hasher};
+use plonky2::verif_hooks::{compress_merkle_proofs, decompress_merkle_proofs};
+use plonky2_field::goldilocks_field::GoldilocksField as F;
+use plonky2_field::types::Field;
+use proptest::prelude::*;
+use serde::{Deserialize, Serialize};
+use serde_json::json;
+
+use crate::engine::{bx, catch, frac, hash_of, Ctx, Stats};
+use crate::gen::field::{canonical, refmod};
+use crate::oracle::merkle_ref::{
+    ref_batch_verify, ref_compress, ref_compressed_total, ref_verify, RefBatchTree, RefTree, Verdict,
+};
+
+// ------------------------------------------------------------------------------------------
+// Hasher kinds
+// ------------------------------------------------------------------------------------------
+
+trait Hk: Hasher<F> + Send + Sync + 'static {
+    const NAME: &'static str;
+    /// A different digest: one limb (field element resp. byte) incremented by one.
+    fn tweak(h: Self::Hash, limb: usize) -> Self::Hash;
+}
+
+impl Hk for PoseidonHash {
+    const NAME: &'static str = "poseidon";
+    fn tweak(h: HashOut<F>, limb: usize) -> HashOut<F> {
+        let mut e = h.elements;
+        let k = limb % e.len();
+        e[k] += F::ONE;
+        HashOut { elements: e }
+    }
+}
+
+impl Hk for KeccakHash<25> {
+    const NAME: &'static str = "keccak25";
+    fn tweak(h: BytesHash<25>, limb: usize) -> BytesHash<25> {
+        let mut b = h.0;
+        let k = limb % b.len();
+        b[k] = b[k].wrapping_add(1);
+        BytesHash(b)
+    }
+}
+
+macro_rules! dispatch {
+    ($hasher:expr, $f:ident, $($arg:expr),*) => {
+        if $hasher == 0 { $f::<PoseidonHash>($($arg),*) } else { $f::<KeccakHash<25>>($($arg),*) }
+    };
+}
+
+// ------------------------------------------------------------------------------------------
+// Shared generators / helpers
+// ------------------------------------------------------------------------------------------
+
+fn pool_strat() -> BoxedStrategy<Vec<u64>> {
+    bx(prop::collection::vec(canonical(), 4..=24))
+}
+
+/// (mode, raw): mode 0 = anywhere, 1 = root, 2 = cap at the leaves, 3 = one level below the leaves' parents.
+fn cap_sel() -> BoxedStrategy<(u8, u16)> {
+    bx((prop_oneof![5 => Just(0u8), 1 => Just(1u8), 1 => Just(2u8), 2 => Just(3u8)], any::<u16>()))
+}
+
+fn cap_height_of(sel: (u8, u16), max: usize) -> usize {
+    match sel.0 {
+        0 => frac(sel.1, max + 1),
+        1 => 0,
+        2 => max,
+        _ => max.saturating_sub(1),
+    }
+}
+
+fn width_strat() -> BoxedStrategy<u8> {
+    bx(prop_oneof![8 => 0u8..=12, 1 => 13u8..=40])
+}
+
+fn dup_mask_strat() -> BoxedStrategy<u16> {
+    bx(prop_oneof![
+        12 => Just(0u16),
+        1 => Just(1u16),
+        1 => Just(2u16),
+        1 => Just(0xFFFFu16),
+        1 => any::<u16>(),
+    ])
+}
+
+/// Row `id` of matrix `salt`, `width` canonical elements, a fixed arithmetic function of the
+/// proptest-generated pool. Element 0 is `pool[salt] + id`, so rows with different ids (< p) differ.
+fn row(pool: &[u64], salt: usize, id: usize, width: usize) -> Vec<F> {
+    let l = pool.len();
+    (0..width)
+        .map(|j| {
+            let v = if j == 0 {
+                refmod::add(pool[salt % l], id as u64)
+            } else {
+                let a = pool[(id + 3 * j + salt) % l];
+                let b = pool[(id / l + 7 * j + salt) % l];
+                refmod::add(refmod::mul(a, id as u64 + 1), refmod::add(b, j as u64))
+            };
+            F::from_canonical_u64(v)
+        })
+        .collect()
+}
+
+fn matrix(pool: &[u64], salt: usize, n: usize, width: usize, dup_mask: u16) -> Vec<Vec<F>> {
+    (0..n).map(|i| row(pool, salt, i & !(dup_mask as usize), width)).collect()
+}
+
+fn bump(rowv: &[F], e: usize) -> Vec<F> {
+    let mut r = rowv.to_vec();
+    let k = e % r.len();
+    r[k] += F::ONE;
+    r
+}
+
+fn pick(picks: &[u16], k: usize, n: usize) -> usize {
+    frac(picks[k % picks.len()], n.max(1))
+}
+
+/// An index in `0..n` different from `i` (n ≥ 2).
+fn other_than(i: usize, raw: u16, n: usize) -> usize {
+    let j = frac(raw, n - 1);
+    if j >= i {
+        j + 1
+    } else {
+        j
+    }
+}
+
+fn positions_of(raws: &[u16], n: usize) -> Vec<usize> {
+    let mut ps = vec![0, n - 1];
+    ps.extend(raws.iter().map(|&r| frac(r, n)));
+    ps.sort_unstable();
+    ps.dedup();
+    ps
+}
+
+fn canon(v: &[F]) -> Vec<u64> {
+    use plonky2_field::types::PrimeField64;
+    v.iter().map(|x| x.to_canonical_u64()).collect()
+}
+
+fn rows_eq(a: &[Vec<F>], b: &[Vec<F>]) -> bool {
+    a.len() == b.len() && a.iter().zip(b).all(|(x, y)| canon(x) == canon(y))
+}
+
+fn width_class<H: Hk>(w: usize) -> &'static str {
+    if w == 0 {
+        "leafwidth:0"
+    } else if w * 8 < H::HASH_SIZE {
+        "leafwidth:shorter_than_digest(noop)"
+    } else if w * 8 == H::HASH_SIZE {
+        "leafwidth:equal_digest(noop)"
+    } else if w <= 8 {
+        "leafwidth:longer_than_digest(1 rate block)"
+    } else {
+        "leafwidth:longer_than_digest(>1 rate block)"
+    }
+}
+
+fn cap_class(cap_height: usize, log_n: usize) -> &'static str {
+    if cap_height == log_n {
+        "cap:at_leaves"
+    } else if cap_height + 1 == log_n {
+        "cap:subtrees_of_2"
+    } else if cap_height == 0 {
+        "cap:root"
+    } else {
+        "cap:middle"
+    }
+}
+
+/// Compare an implementation verdict with the reference verdict.
+/// `got`: Ok(true)=accepted, Ok(false)=returned Err, Err(p)=panicked.
+/// A panic is tolerated only where the reference calls the statement malformed.
+fn judge(
+    st: &mut Stats,
+    what: &str,
+    got: Result<bool, String>,
+    want: Verdict,
+    must_reject: bool,
+) -> Result<(), String> {
+    st.evals(1);
+    if must_reject && want != Verdict::Reject {
+        return Err(format!(
+            "{}: a forged statement over distinct data must be rejected, but the reference walk says {:?} (implementation: {:?})",
+            what, want, got
+        ));
+    }
+    match (want, &got) {
+        (Verdict::Accept, Ok(true)) => st.label("neg:accepted_by_reference_too"),
+        (Verdict::Reject, Ok(false)) => st.label("neg:rejected"),
+        (Verdict::Malformed, Ok(false)) => st.label("neg:malformed->Err"),
+        (Verdict::Malformed, Err(_)) => st.label("neg:malformed->panic"),
+        _ => {
+            return Err(format!(
+                "{}: implementation verdict {:?} (Ok(true)=accept, Ok(false)=Err, Err=panic) but reference verdict {:?}",
+                what, got, want
+            ))
+        }
+    }
+    Ok(())
+}
+
+fn impl_verify<H: Hk>(
+    leaf: &[F],
+    index: usize,
+    cap: &MerkleCap<F, H>,
+    proof: &MerkleProof<F, H>,
+) -> Result<bool, String> {
+    catch(|| verify_merkle_proof_to_cap::<F, H>(leaf.to_vec(), index, cap, proof)).map(|r| r.is_ok())
+}
+
+fn impl_batch_verify<H: Hk>(
+    rows: &[Vec<F>],
+    heights: &[usize],
+    index: usize,
+    cap: &MerkleCap<F, H>,
+    proof: &MerkleProof<F, H>,
+) -> Result<bool, String> {
+    catch(|| verify_batch_merkle_proof_to_cap::<F, H>(rows, heights, index, cap, proof)).map(|r| r.is_ok())
+}
+
+// ------------------------------------------------------------------------------------------
+// Sub-check tree_model
+// ------------------------------------------------------------------------------------------
+
+#[derive(Clone, Debug, Serialize, Deserialize)]
+pub struct TreeCase {
+    /// 0 = PoseidonHash, 1 = KeccakHash<25>
+    pub hasher: u8,
+    pub log_n: u8,
+    pub width: u8,
+    pub cap_sel: (u8, u16),
+    /// leaf `i` carries the data of id `i & !dup_mask`; 0 = all leaves distinct
+    pub dup_mask: u16,
+    pub pool: Vec<u64>,
+    pub positions: Vec<u16>,
+    pub picks: Vec<u16>,
+}
+
+fn tree_case(max_log: u8) -> BoxedStrategy<TreeCase> {
+    bx((
+        0u8..2,
+        0u8..=max_log,
+        width_strat(),
+        cap_sel(),
+        dup_mask_strat(),
+        pool_strat(),
+        prop::collection::vec(any::<u16>(), 0..=3),
+        prop::collection::vec(any::<u16>(), 8),
+    )
+        .prop_map(|(hasher, log_n, width, cap_sel, dup_mask, pool, positions, picks)| TreeCase {
+            hasher,
+            log_n,
+            width,
+            cap_sel,
+            dup_mask,
+            pool,
+            positions,
+            picks,
+        }))
+}
+
+fn tree_model(c: &TreeCase, st: &mut Stats) -> Result<(), String> {
+    dispatch!(c.hasher, tree_model_h, c, st)
+}
+
+fn tree_model_h<H: Hk>(c: &TreeCase, st: &mut Stats) -> Result<(), String> {
+    let log_n = c.log_n as usize;
+    let n = 1usize << log_n;
+    let w = c.width as usize;
+    let cap_height = cap_height_of(c.cap_sel, log_n);
+    let cap_len = 1usize << cap_height;
+    let depth = log_n - cap_height;
+    let eff_mask = c.dup_mask as usize & (n - 1);
+    let distinct = eff_mask == 0 && w >= 1;
+    let leaves = matrix(&c.pool, 0, n, w, c.dup_mask);
+
+    st.label(&format!("hasher:{}", H::NAME));
+    st.label(&format!("log_n:{:02}", log_n));
+    st.label(width_class::<H>(w));
+    st.label(cap_class(cap_height, log_n));
+    st.label(if distinct { "leaves:all_distinct" } else { "leaves:with_duplicates" });
+    if n >= 4 && cap_height < log_n {
+        st.nontrivial(&(c.hasher, log_n, w, cap_height, eff_mask, hash_of(&c.pool), &c.positions));
+    }
+    st.sample(|| json!({"sub": "tree_model", "hasher": H::NAME, "log_n": log_n, "width": w, "cap_height": cap_height, "dup_mask": eff_mask}));
+
+    let reference = RefTree::<F, H>::build(&leaves, cap_height);
+    let tree = MerkleTree::<F, H>::new(leaves.clone(), cap_height);
+
+    // --- structure ---
+    if tree.cap.0 != reference.cap() {
+        return Err(format!("cap differs from level-by-level reference (n={}, cap_height={}, width={})", n, cap_height, w));
+    }
+    if tree.cap.len() != cap_len || tree.cap.height() != cap_height {
+        return Err(format!("cap has {} entries, expected {}", tree.cap.len(), cap_len));
+    }
+    let flat: Vec<F> = reference.cap().iter().flat_map(|h| h.to_vec()).collect();
+    if canon(&tree.cap.flatten()) != canon(&flat) {
+        return Err("cap.flatten() is not the concatenation of the cap digests".into());
+    }
+    if !rows_eq(&tree.leaves, &leaves) {
+        return Err("tree.leaves differs from the committed leaves".into());
+    }
+    if tree.digests.len() != 2 * (n - cap_len) {
+        return Err(format!("digests.len()={} expected {}", tree.digests.len(), 2 * (n - cap_len)));
+    }
+    if tree.digests != reference.documented_digest_layout() {
+        return Err(format!("digests differ from the documented layout of the reference tree (n={}, cap_height={})", n, cap_height));
+    }
+
+    // --- openings ---
+    let positions = positions_of(&c.positions, n);
+    for (pi, &i) in positions.iter().enumerate() {
+        let leaf = &leaves[i];
+        if canon(tree.get(i)) != canon(leaf) {
+            return Err(format!("get({}) is not leaf {}", i, i));
+        }
+        let proof = tree.prove(i);
+        if proof.len() != depth || proof.is_empty() != (depth == 0) {
+            return Err(format!("prove({}) has {} siblings, expected {}", i, proof.len(), depth));
+        }
+        if proof.siblings != reference.siblings(i) {
+            return Err(format!("prove({}) siblings differ from the reference authentication path", i));
+        }
+        let cap_ref: Vec<H::Hash> = reference.cap().to_vec();
+        if ref_verify::<F, H>(leaf, i, &proof.siblings, &cap_ref) != Verdict::Accept {
+            return Err(format!("oracle self-check: reference walk rejects the reference path of leaf {}", i));
+        }
+        st.evals(1);
+        match impl_verify::<H>(leaf, i, &tree.cap, &proof) {
+            Ok(true) => {}
+            other => return Err(format!("honest opening of leaf {} not accepted: {:?}", i, other)),
+        }
+        if cap_height == 0 {
+            st.label("verify_merkle_proof(root)");
+            let root = tree.cap.0[0];
+            if verify_merkle_proof::<F, H>(leaf.clone(), i, root, &proof).is_err() {
+                return Err(format!("verify_merkle_proof (root form) rejects honest opening of leaf {}", i));
+            }
+            let bad_root = H::tweak(root, pick(&c.picks, 0, 64));
+            if verify_merkle_proof::<F, H>(leaf.clone(), i, bad_root, &proof).is_ok() {
+                return Err(format!("verify_merkle_proof (root form) accepts an altered root for leaf {}", i));
+            }
+        }
+
+        // ----- negative catalogue -----
+        let chk = |st: &mut Stats,
+                   what: &str,
+                   lf: &[F],
+                   idx: usize,
+                   cap: &MerkleCap<F, H>,
+                   pr: &MerkleProof<F, H>,
+                   must_reject: bool|
+         -> Result<(), String> {
+            let want = ref_verify::<F, H>(lf, idx, &pr.siblings, &cap.0);
+            let got = impl_verify::<H>(lf, idx, cap, pr);
+            judge(st, &format!("{} (leaf {} of {}, cap_height {})", what, i, n, cap_height), got, want, must_reject)
+        };
+
+        // other leaf of the same width
+        if n > 1 {
+            let j = other_than(i, c.picks[(pi + 1) % c.picks.len()], n);
+            chk(st, &format!("other leaf {}", j), &leaves[j], i, &tree.cap, &proof, distinct)?;
+            let j = i ^ 1;
+            chk(st, "sibling leaf", &leaves[j], i, &tree.cap, &proof, distinct)?;
+        }
+        if w >= 1 {
+            let forged = bump(leaf, pick(&c.picks, pi + 2, w));
+            chk(st, "leaf with one element +1", &forged, i, &tree.cap, &proof, true)?;
+        }
+        // other position
+        if n > 1 {
+            let j = other_than(i, c.picks[(pi + 3) % c.picks.len()], n);
+            chk(st, &format!("other index {}", j), leaf, j, &tree.cap, &proof, distinct)?;
+            chk(st, "index with lowest bit flipped", leaf, i ^ 1, &tree.cap, &proof, distinct)?;
+            chk(st, "index with highest bit flipped", leaf, i ^ (n >> 1), &tree.cap, &proof, distinct)?;
+        }
+        chk(st, "index + n (outside the tree)", leaf, i + n, &tree.cap, &proof, false)?;
+        // each sibling altered
+        for s in 0..depth {
+            let mut p = proof.clone();
+            p.siblings[s] = H::tweak(p.siblings[s], pick(&c.picks, s + pi, 64));
+            chk(st, &format!("sibling {} altered", s), leaf, i, &tree.cap, &p, true)?;
+        }
+        // cap entries altered
+        let on_path = i >> depth;
+        {
+            let mut capv = tree.cap.clone();
+            capv.0[on_path] = H::tweak(capv.0[on_path], pick(&c.picks, 4, 64));
+            chk(st, "addressed cap entry altered", leaf, i, &capv, &proof, true)?;
+        }
+        if cap_len > 1 {
+            let others: Vec<usize> = if cap_len <= 8 {
+                (0..cap_len).filter(|&k| k != on_path).collect()
+            } else {
+                vec![other_than(on_path, c.picks[(pi + 5) % c.picks.len()], cap_len), on_path ^ 1]
+            };
+            for k in others {
+                let mut capv = tree.cap.clone();
+                capv.0[k] = H::tweak(capv.0[k], pick(&c.picks, 6, 64));
+                // An entry the opening does not address is irrelevant to it: verdicts must agree (accept).
+                chk(st, &format!("unaddressed cap entry {} altered", k), leaf, i, &capv, &proof, false)?;
+            }
+        }
+        // malformed lengths
+        if depth >= 1 {
+            let mut p = proof.clone();
+            p.siblings.pop();
+            chk(st, "last sibling dropped", leaf, i, &tree.cap, &p, false)?;
+            let mut p = proof.clone();
+            p.siblings.remove(0);
+            chk(st, "first sibling dropped", leaf, i, &tree.cap, &p, false)?;
+        }
+        {
+            let mut p = proof.clone();
+            p.siblings.push(tree.cap.0[0]);
+            chk(st, "extra sibling appended", leaf, i, &tree.cap, &p, false)?;
+            let mut p = proof.clone();
+            p.siblings.insert(0, tree.cap.0[on_path]);
+            chk(st, "extra sibling prepended", leaf, i, &tree.cap, &p, false)?;
+        }
+    }
+    Ok(())
+}
+
+// ------------------------------------------------------------------------------------------
+// Sub-check threads
+// ------------------------------------------------------------------------------------------
+
+#[derive(Clone, Debug, Serialize, Deserialize)]
+pub struct ThreadCase {
+    pub hasher: u8,
+    pub log_n: u8,
+    pub width: u8,
+    pub cap_sel: (u8, u16),
+    pub pool: Vec<u64>,
+    /// height of a second (shorter) matrix for the batch tree, as a fraction of cap_height..log_n
+    pub second: u16,
+    pub second_width: u8,
+}
+
+fn thread_case(max_log: u8) -> BoxedStrategy<ThreadCase> {
+    bx((0u8..2, 0u8..=max_log, width_strat(), cap_sel(), pool_strat(), any::<u16>(), 0u8..=9).prop_map(
+        |(hasher, log_n, width, cap_sel, pool, second, second_width)| ThreadCase {
+            hasher,
+            log_n,
+            width,
+            cap_sel,
+            pool,
+            second,
+            second_width,
+        },
+    ))
+}
+
+const THREAD_COUNTS: [usize; 4] = [1, 2, 3, 16];
+const THREAD_REPS: usize = 3;
+
+fn threads(c: &ThreadCase, st: &mut Stats) -> Result<(), String> {
+    dispatch!(c.hasher, threads_h, c, st)
+}
+
+fn threads_h<H: Hk>(c: &ThreadCase, st: &mut Stats) -> Result<(), String> {
+    let log_n = c.log_n as usize;
+    let n = 1usize << log_n;
+    let w = c.width as usize;
+    let cap_height = cap_height_of(c.cap_sel, log_n);
+    let leaves = matrix(&c.pool, 0, n, w, 0);
+    st.label(&format!("threads:hasher:{}", H::NAME));
+    st.label(&format!("threads:log_n:{:02}", log_n));
+    if n >= 4 && cap_height < log_n {
+        st.nontrivial(&("threads", c.hasher, log_n, w, cap_height, hash_of(&c.pool)));
+    }
+
+    let reference = RefTree::<F, H>::build(&leaves, cap_height);
+    let ref_digests = reference.documented_digest_layout();
+    let ref_paths: Vec<Vec<H::Hash>> = (0..n).map(|i| reference.siblings(i)).collect();
+
+    // batch tree with a second, shorter matrix when there is room for one
+    let mats: Vec<Vec<Vec<F>>> = if log_n > cap_height {
+        let h1 = cap_height + frac(c.second, log_n - cap_height);
+        vec![leaves.clone(), matrix(&c.pool, 1, 1 << h1, c.second_width as usize, 0)]
+    } else {
+        vec![leaves.clone()]
+    };
+    let bref = RefBatchTree::<F, H>::build(&mats, cap_height);
+    let bref_digests = bref.documented_digest_layout();
+
+    for &k in THREAD_COUNTS.iter() {
+        let pool = rayon::ThreadPoolBuilder::new()
+            .num_threads(k)
+            .build()
+            .map_err(|e| format!("cannot build rayon pool: {}", e))?;
+        for rep in 0..THREAD_REPS {
+            st.evals(2);
+            let tree = pool.install(|| MerkleTree::<F, H>::new(leaves.clone(), cap_height));
+            if tree.cap.0 != reference.cap() {
+                return Err(format!("cap differs from reference with {} threads (rep {}), n={}, cap_height={}", k, rep, n, cap_height));
+            }
+            if tree.digests != ref_digests {
+                return Err(format!("digests differ from reference with {} threads (rep {}), n={}, cap_height={}", k, rep, n, cap_height));
+            }
+            for i in 0..n {
+                if tree.prove(i).siblings != ref_paths[i] {
+                    return Err(format!("prove({}) differs with {} threads (rep {})", i, k, rep));
+                }
+            }
+            let bt = pool.install(|| BatchMerkleTree::<F, H>::new(mats.clone(), cap_height));
+            if bt.cap.0 != bref.cap() || bt.digests != bref_digests {
+                return Err(format!("batch tree cap/digests differ from reference with {} threads (rep {})", k, rep));
+            }
+        }
+    }
+    Ok(())
+}
+
+// ------------------------------------------------------------------------------------------
+// Sub-check batch_tree
+// ------------------------------------------------------------------------------------------
+
+#[derive(Clone, Debug, Serialize, Deserialize)]
+pub struct BatchCase {
+    pub hasher: u8,
+    /// strictly decreasing log-heights, 1..=4 of them
+    pub heights: Vec<u8>,
+    pub widths: Vec<u8>,
+    pub cap_sel: (u8, u16),
+    pub dup_mask: u16,
+    pub pool: Vec<u64>,
+    pub positions: Vec<u16>,
+    pub picks: Vec<u16>,
+}
+
+fn batch_case(max_log: u8) -> BoxedStrategy<BatchCase> {
+    let all: Vec<u8> = (0..=max_log).collect();
+    bx((
+        0u8..2,
+        proptest::sample::subsequence(all, 1..=4),
+        prop::collection::vec(width_strat(), 4),
+        cap_sel(),
+        dup_mask_strat(),
+        pool_strat(),
+        prop::collection::vec(any::<u16>(), 0..=3),
+        prop::collection::vec(any::<u16>(), 8),
+    )
+        .prop_map(|(hasher, mut heights, widths, cap_sel, dup_mask, pool, positions, picks)| {
+            heights.reverse();
+            BatchCase {
+                hasher,
+                heights,
+                widths,
+                cap_sel,
+                dup_mask,
+                pool,
+                positions,
+                picks,
+            }
+        }))
+}
+
+fn batch_tree(c: &BatchCase, st: &mut Stats) -> Result<(), String> {
+    // Replayed / shrunk cases must still respect the constructor's documented preconditions.
+    if c.heights.is_empty()
+        || c.heights.len() > c.widths.len()
+        || !c.heights.windows(2).all(|p| p[0] > p[1])
+        || c.heights[0] > 16
+        || c.pool.is_empty()
+        || c.picks.is_empty()
+    {
+        return Ok(());
+    }
+    dispatch!(c.hasher, batch_tree_h, c, st)
+}
+
+fn batch_tree_h<H: Hk>(c: &BatchCase, st: &mut Stats) -> Result<(), String> {
+    let heights: Vec<usize> = c.heights.iter().map(|&h| h as usize).collect();
+    let m = heights.len();
+    let h0 = heights[0];
+    let n0 = 1usize << h0;
+    let cap_height = cap_height_of(c.cap_sel, *heights.last().unwrap());
+    let cap_len = 1usize << cap_height;
+    let depth = h0 - cap_height;
+    let widths: Vec<usize> = c.widths[..m].iter().map(|&w| w as usize).collect();
+    let mats: Vec<Vec<Vec<F>>> = (0..m)
+        .map(|k| matrix(&c.pool, k + 1, 1 << heights[k], widths[k], c.dup_mask))
+        .collect();
+    let distinct: Vec<bool> = (0..m)
+        .map(|k| (c.dup_mask as usize & ((1usize << heights[k]) - 1)) == 0 && widths[k] >= 1)
+        .collect();
+
+    st.label(&format!("batch:hasher:{}", H::NAME));
+    st.label(&format!("batch:matrices:{}", m));
+    st.label(&format!("batch:{}", cap_class(cap_height, h0)));
+    if *heights.last().unwrap() == cap_height {
+        st.label("batch:last_matrix_at_cap_height");
+    }
+    if m >= 2 && heights[0] == heights[1] + 1 {
+        st.label("batch:adjacent_heights");
+    }
+    if widths.iter().skip(1).any(|&w| w == 0) {
+        st.label("batch:empty_rows_in_upper_matrix");
+    }
+    if n0 >= 4 && cap_height < h0 {
+        st.nontrivial(&("batch", c.hasher, &heights, &widths, cap_height, c.dup_mask, hash_of(&c.pool), &c.positions));
+    }
+    st.sample(|| json!({"sub": "batch_tree", "hasher": H::NAME, "heights": heights, "widths": widths, "cap_height": cap_height}));
+
+    let reference = RefBatchTree::<F, H>::build(&mats, cap_height);
+    let tree = BatchMerkleTree::<F, H>::new(mats.clone(), cap_height);
+
+    if tree.cap.0 != reference.cap() {
+        return Err(format!("batch cap differs from reference (heights {:?}, widths {:?}, cap_height {})", heights, widths, cap_height));
+    }
+    if tree.cap.len() != cap_len {
+        return Err(format!("batch cap has {} entries, expected {}", tree.cap.len(), cap_len));
+    }
+    if tree.leaf_heights != heights {
+        return Err(format!("leaf_heights {:?} expected {:?}", tree.leaf_heights, heights));
+    }
+    if tree.leaves.len() != m || !tree.leaves.iter().zip(&mats).all(|(a, b)| rows_eq(a, b)) {
+        return Err("batch tree leaves differ from the committed matrices".into());
+    }
+    if tree.digests.len() != 2 * (n0 - cap_len) {
+        return Err(format!("batch digests.len()={} expected {}", tree.digests.len(), 2 * (n0 - cap_len)));
+    }
+    if tree.digests != reference.documented_digest_layout() {
+        return Err(format!("batch digests differ from the reference layout (heights {:?}, cap_height {})", heights, cap_height));
+    }
+    if m == 1 {
+        // A single matrix is an ordinary Merkle tree.
+        let plain = MerkleTree::<F, H>::new(mats[0].clone(), cap_height);
+        let plain_ref = RefTree::<F, H>::build(&mats[0], cap_height);
+        if plain.cap != tree.cap || plain.digests != tree.digests || plain_ref.cap() != reference.cap() {
+            return Err("single-matrix batch tree differs from the plain Merkle tree".into());
+        }
+    }
+
+    let positions = positions_of(&c.positions, n0);
+    for (pi, &i) in positions.iter().enumerate() {
+        let rows = reference.opened_rows(&mats, i);
+        let got_rows = tree.values(i);
+        if !rows_eq(&got_rows, &rows) {
+            return Err(format!("values({}) are not the rows above position {}", i, i));
+        }
+        let proof = tree.open_batch(i);
+        if proof.siblings.len() != depth {
+            return Err(format!("open_batch({}) has {} siblings, expected {}", i, proof.siblings.len(), depth));
+        }
+        if proof.siblings != reference.siblings(i) {
+            return Err(format!("open_batch({}) siblings differ from the reference authentication path", i));
+        }
+        let cap_ref: Vec<H::Hash> = reference.cap().to_vec();
+        if ref_batch_verify::<F, H>(&rows, &heights, i, &proof.siblings, &cap_ref) != Verdict::Accept {
+            return Err(format!("oracle self-check: reference batch walk rejects the reference path of position {}", i));
+        }
+        st.evals(1);
+        match impl_batch_verify::<H>(&rows, &heights, i, &tree.cap, &proof) {
+            Ok(true) => {}
+            other => return Err(format!("honest batch opening of position {} not accepted: {:?}", i, other)),
+        }
+
+        let chk = |st: &mut Stats,
+                   what: &str,
+                   rs: &[Vec<F>],
+                   hs: &[usize],
+                   idx: usize,
+                   cap: &MerkleCap<F, H>,
+                   pr: &MerkleProof<F, H>,
+                   must_reject: bool|
+         -> Result<(), String> {
+            let want = ref_batch_verify::<F, H>(rs, hs, idx, &pr.siblings, &cap.0);
+            let got = impl_batch_verify::<H>(rs, hs, idx, cap, pr);
+            judge(
+                st,
+                &format!("batch {} (position {}, heights {:?}, cap_height {})", what, i, heights, cap_height),
+                got,
+                want,
+                must_reject,
+            )
+        };
+
+        // other row of the same matrix / one element altered, for every matrix
+        for k in 0..m {
+            let nk = 1usize << heights[k];
+            let rk = i >> (h0 - heights[k]);
+            if nk > 1 {
+                let j = other_than(rk, c.picks[(pi + k) % c.picks.len()], nk);
+                let mut rs = rows.clone();
+                rs[k] = mats[k][j].clone();
+                chk(st, &format!("matrix {} opened with other row {}", k, j), &rs, &heights, i, &tree.cap, &proof, distinct[k])?;
+            }
+            if widths[k] >= 1 {
+                let mut rs = rows.clone();
+                rs[k] = bump(&rows[k], pick(&c.picks, pi + k + 1, widths[k]));
+                chk(st, &format!("matrix {} row with one element +1", k), &rs, &heights, i, &tree.cap, &proof, true)?;
+            }
+        }
+        // other position
+        if n0 > 1 {
+            let j = other_than(i, c.picks[(pi + 3) % c.picks.len()], n0);
+            chk(st, &format!("other index {}", j), &rows, &heights, j, &tree.cap, &proof, distinct[0])?;
+            chk(st, "index with lowest bit flipped", &rows, &heights, i ^ 1, &tree.cap, &proof, distinct[0])?;
+            chk(st, "index with highest bit flipped", &rows, &heights, i ^ (n0 >> 1), &tree.cap, &proof, distinct[0])?;
+        }
+        chk(st, "index + n (outside the tree)", &rows, &heights, i + n0, &tree.cap, &proof, false)?;
+        for s in 0..depth {
+            let mut p = proof.clone();
+            p.siblings[s] = H::tweak(p.siblings[s], pick(&c.picks, s + pi, 64));
+            chk(st, &format!("sibling {} altered", s), &rows, &heights, i, &tree.cap, &p, true)?;
+        }
+        let on_path = i >> depth;
+        {
+            let mut capv = tree.cap.clone();
+            capv.0[on_path] = H::tweak(capv.0[on_path], pick(&c.picks, 4, 64));
+            chk(st, "addressed cap entry altered", &rows, &heights, i, &capv, &proof, true)?;
+        }
+        if cap_len > 1 {
+            let k = other_than(on_path, c.picks[(pi + 5) % c.picks.len()], cap_len);
+            let mut capv = tree.cap.clone();
+            capv.0[k] = H::tweak(capv.0[k], pick(&c.picks, 6, 64));
+            chk(st, &format!("unaddressed cap entry {} altered", k), &rows, &heights, i, &capv, &proof, false)?;
+        }
+        // malformed lengths / heights: only "never accepted unless the reference accepts"
+        if depth >= 1 {
+            let mut p = proof.clone();
+            p.siblings.pop();
+            chk(st, "last sibling dropped", &rows, &heights, i, &tree.cap, &p, false)?;
+            let mut p = proof.clone();
+            p.siblings.remove(0);
+            chk(st, "first sibling dropped", &rows, &heights, i, &tree.cap, &p, false)?;
+        }
+        {
+            let mut p = proof.clone();
+            p.siblings.push(tree.cap.0[0]);
+            chk(st, "extra sibling appended", &rows, &heights, i, &tree.cap, &p, false)?;
+        }
+        for k in 1..m {
+            let alt = pick(&c.picks, pi + k + 2, h0 + 2);
+            if alt != heights[k] {
+                let mut hs = heights.clone();
+                hs[k] = alt;
+                chk(st, &format!("claimed height of matrix {} changed to {}", k, alt), &rows, &hs, i, &tree.cap, &proof, false)?;
+            }
+        }
+        if m >= 2 {
+            // drop the last opened row together with its height: the upper matrix is then not bound
+            let rs = rows[..m - 1].to_vec();
+            let hs = heights[..m - 1].to_vec();
+            chk(st, "last matrix omitted from the opening", &rs, &hs, i, &tree.cap, &proof, false)?;
+        }
+    }
+    Ok(())
+}
+
+// ------------------------------------------------------------------------------------------
+// Sub-check path_compression
+// ------------------------------------------------------------------------------------------
+
+#[derive(Clone, Debug, Serialize, Deserialize)]
+pub struct PcCase {
+    pub hasher: u8,
+    pub log_n: u8,
+    pub width: u8,
+    pub cap_sel: (u8, u16),
+    pub pool: Vec<u64>,
+    /// 0 random multiset, 1 single index, 2 all indices ascending, 3 all indices permuted,
+    /// 4 sibling pairs, 5 one small aligned block (same sub-tree), 6 explicit repeats,
+    /// 7 all indices permuted plus repeats
+    pub mode: u8,
+    pub raws: Vec<u16>,
+    pub picks: Vec<u16>,
+}
+
+fn pc_case(max_log: u8) -> BoxedStrategy<PcCase> {
+    bx((
+        0u8..2,
+        prop_oneof![1 => 0u8..=2, 4 => 3u8..=max_log],
+        1u8..=6,
+        prop_oneof![5 => cap_sel(), 3 => (Just(0u8), any::<u16>()), 2 => Just((1u8, 0u16))],
+        pool_strat(),
+        prop_oneof![4 => Just(0u8), 1 => Just(1u8), 1 => Just(2u8), 1 => Just(3u8), 2 => Just(4u8), 2 => Just(5u8), 2 => Just(6u8), 1 => Just(7u8)],
+        prop::collection::vec(any::<u16>(), 1..=24),
+        prop::collection::vec(any::<u16>(), 4),
+    )
+        .prop_map(|(hasher, log_n, width, cap_sel, pool, mode, raws, picks)| PcCase {
+            hasher,
+            log_n,
+            width,
+            cap_sel,
+            pool,
+            mode,
+            raws,
+            picks,
+        }))
+}
+
+fn pc_indices(c: &PcCase, n: usize) -> Vec<usize> {
+    let raws = &c.raws;
+    let key = |i: usize| -> (u16, usize) { (raws[i % raws.len()].wrapping_mul(40503).wrapping_add((i as u16).wrapping_mul(raws[0] | 1)), i) };
+    match c.mode {
+        0 => raws.iter().map(|&r| frac(r, n)).collect(),
+        1 => vec![frac(raws[0], n)],
+        2 => (0..n).collect(),
+        3 => {
+            let mut v: Vec<usize> = (0..n).collect();
+            v.sort_by_key(|&i| key(i));
+            v
+        }
+        4 => raws.iter().flat_map(|&r| [frac(r, n), frac(r, n) ^ (if n > 1 { 1 } else { 0 })]).collect(),
+        5 => {
+            let blk = n.min(8);
+            let base = frac(raws[0], n) & !(blk - 1);
+            raws.iter().map(|&r| base + frac(r, blk)).collect()
+        }
+        6 => {
+            let mut v: Vec<usize> = raws.iter().flat_map(|&r| [frac(r, n), frac(r, n)]).collect();
+            v.push(frac(raws[0], n));
+            v
+        }
+        _ => {
+            let mut v: Vec<usize> = (0..n).collect();
+            v.sort_by_key(|&i| key(i));
+            v.extend(raws.iter().map(|&r| frac(r, n)));
+            v
+        }
+    }
+}
+
+fn path_compression(c: &PcCase, st: &mut Stats) -> Result<(), String> {
+    if c.raws.is_empty() || c.picks.is_empty() || c.pool.is_empty() || c.log_n > 16 {
+        return Ok(());
+    }
+    dispatch!(c.hasher, path_compression_h, c, st)
+}
+
+fn path_compression_h<H: Hk>(c: &PcCase, st: &mut Stats) -> Result<(), String> {
+    let log_n = c.log_n as usize;
+    let n = 1usize << log_n;
+    let w = c.width as usize;
+    let cap_height = cap_height_of(c.cap_sel, log_n);
+    let depth = log_n - cap_height;
+    let leaves = matrix(&c.pool, 0, n, w, 0);
+    let indices = pc_indices(c, n);
+    let mut sorted = indices.clone();
+    sorted.sort_unstable();
+    sorted.dedup();
+    let has_repeats = sorted.len() < indices.len();
+    let full = sorted.len() == n;
+
+    st.label(&format!("pc:hasher:{}", H::NAME));
+    st.label(&format!("pc:mode:{}", c.mode));
+    st.label(if has_repeats { "pc:indices_with_repeats" } else { "pc:indices_distinct" });
+    if full {
+        st.label("pc:all_leaves_opened");
+    }
+    if n >= 4 && cap_height < log_n {
+        st.nontrivial(&("pc", c.hasher, log_n, cap_height, &indices, hash_of(&c.pool)));
+    }
+    st.sample(|| json!({"sub": "path_compression", "hasher": H::NAME, "log_n": log_n, "cap_height": cap_height, "indices": indices.iter().take(16).collect::<Vec<_>>()}));
+
+    let reference = RefTree::<F, H>::build(&leaves, cap_height);
+    let tree = MerkleTree::<F, H>::new(leaves.clone(), cap_height);
+    let proofs: Vec<MerkleProof<F, H>> = indices.iter().map(|&i| tree.prove(i)).collect();
+    let paths: Vec<Vec<H::Hash>> = indices.iter().map(|&i| reference.siblings(i)).collect();
+    for (p, r) in proofs.iter().zip(&paths) {
+        if &p.siblings != r {
+            return Err("prove() differs from the reference path".into());
+        }
+    }
+    let data: Vec<Vec<F>> = indices.iter().map(|&i| leaves[i].clone()).collect();
+
+    st.evals(2);
+    let compressed = compress_merkle_proofs::<F, H>(cap_height, &indices, &proofs);
+    if compressed.len() != proofs.len() {
+        return Err(format!("compress returned {} proofs for {} openings", compressed.len(), proofs.len()));
+    }
+    let total: usize = compressed.iter().map(|p| p.siblings.len()).sum();
+    let original: usize = proofs.iter().map(|p| p.siblings.len()).sum();
+    if total > original {
+        return Err(format!("compressed form has {} siblings, more than the original {}", total, original));
+    }
+    let distinct_total: usize = sorted.len() * depth;
+    if total > distinct_total {
+        return Err(format!("compressed form has {} siblings, more than the {} of the distinct openings", total, distinct_total));
+    }
+    if full && !has_repeats && n >= 4 && depth >= 1 && total >= original {
+        return Err(format!("opening all {} leaves is not compressed at all ({} siblings)", n, total));
+    }
+    let want_total = ref_compressed_total(log_n, cap_height, &indices);
+    if total != want_total {
+        return Err(format!("compressed form has {} siblings, the minimal multi-opening has {} (indices {:?})", total, want_total, indices));
+    }
+    let want = ref_compress(log_n, cap_height, &indices, &paths);
+    for (k, (cp, wp)) in compressed.iter().zip(&want).enumerate() {
+        if &cp.siblings != wp {
+            return Err(format!("compressed proof {} (index {}) differs from the reference compressed form", k, indices[k]));
+        }
+    }
+    if total == 0 {
+        st.label("pc:fully_compressed(0 siblings)");
+    }
+
+    let decompressed = decompress_merkle_proofs::<F, H>(&data, &indices, &compressed, log_n, cap_height);
+    if decompressed != proofs {
+        return Err(format!("decompress(compress(proofs)) != proofs (n={}, cap_height={}, indices {:?})", n, cap_height, indices));
+    }
+    for (k, p) in decompressed.iter().enumerate() {
+        if impl_verify::<H>(&data[k], indices[k], &tree.cap, p) != Ok(true) {
+            return Err(format!("decompressed proof {} does not verify", k));
+        }
+    }
+
+    // Tampering with the compressed form must surface after decompression.
+    if total > 0 {
+        let which = pick(&c.picks, 0, total);
+        let mut bad = compressed.clone();
+        let mut seen = 0usize;
+        'outer: for p in bad.iter_mut() {
+            for s in p.siblings.iter_mut() {
+                if seen == which {
+                    *s = H::tweak(*s, pick(&c.picks, 1, 64));
+                    break 'outer;
+                }
+                seen += 1;
+            }
+        }
+        st.evals(1);
+        let dec = catch(|| decompress_merkle_proofs::<F, H>(&data, &indices, &bad, log_n, cap_height));
+        if let Ok(dec) = dec {
+            let all_ok = dec.len() == indices.len()
+                && dec
+                    .iter()
+                    .enumerate()
+                    .all(|(k, p)| impl_verify::<H>(&data[k], indices[k], &tree.cap, p) == Ok(true));
+            if all_ok {
+                return Err(format!("altered compressed sibling {} goes unnoticed after decompression (indices {:?})", which, indices));
+            }
+            st.label("pc:tampered_sibling_detected");
+        }
+    }
+    {
+        // A forged leaf value (distinct data) must not verify after decompression either.
+        let k = pick(&c.picks, 2, indices.len());
+        let mut bad_data = data.clone();
+        bad_data[k] = bump(&data[k], pick(&c.picks, 3, w));
+        st.evals(1);
+        let dec = catch(|| decompress_merkle_proofs::<F, H>(&bad_data, &indices, &compressed, log_n, cap_height));
+        if let Ok(dec) = dec {
+            let all_ok = dec.len() == indices.len()
+                && dec
+                    .iter()
+                    .enumerate()
+                    .all(|(j, p)| impl_verify::<H>(&bad_data[j], indices[j], &tree.cap, p) == Ok(true));
+            if all_ok {
+                return Err(format!("forged leaf value at opening {} goes unnoticed after decompression (indices {:?})", k, indices));
+            }
+            st.label("pc:forged_leaf_detected");
+        }
+    }
+    Ok(())
+}
+
+// ------------------------------------------------------------------------------------------
+// Driver
+// ------------------------------------------------------------------------------------------
 
 pub fn run(ctx: &mut Ctx) {
-    let _ = ctx;
+    ctx.rule = "trees generated from (hasher in {Poseidon, Keccak<25>}, log n, leaf width 0..=12 (rarely up to 40), cap height \
+                0..=log n biased to root / subtrees-of-2 / cap-at-leaves, a pool of boundary-biased canonical field elements \
+                from which leaf i is derived with element 0 = pool[0]+id(i), duplicate mask); non-trivial = n >= 4 and \
+                cap_height < log n (every negative verdict over all-distinct leaves is additionally required to be a \
+                rejection); distinct = distinct (hasher, log n, width, cap height, duplicate mask, pool, positions / \
+                heights / index multiset) tuple"
+        .into();
+    ctx.assumptions.push("hash_or_noop / two_to_one / Hash::to_vec are taken from the library (judged by C13) and assumed collision-free on the generated data".into());
+    ctx.assumptions.push("MerkleTree::new / BatchMerkleTree::new are called only within their asserted preconditions (power-of-two sizes, strictly decreasing heights, cap_height <= smallest height)".into());
+    ctx.assumptions.push("statements the reference calls malformed (cap entry addressed outside the cap, opened rows not consumed) only have to be 'not accepted' (Err or panic)".into());
+    ctx.assumptions.push("scheduling is varied through rayon pool sizes 1/2/3/16 and repetition only".into());
+
+    let thorough = ctx.tier == crate::engine::Tier::Thorough;
+    let max_log: u8 = if thorough { 12 } else { 9 };
+    let max_log_small: u8 = if thorough { 11 } else { 9 };
+
+    let cases = ctx.tier.pick(10_000, 200_000);
+    ctx.run_sub("tree_model", cases, 16, || tree_case(max_log), tree_model);
+    let cases = ctx.tier.pick(6_000, 100_000);
+    ctx.run_sub("batch_tree", cases, 16, || batch_case(max_log_small), batch_tree);
+    let cases = ctx.tier.pick(8_000, 150_000);
+    ctx.run_sub("path_compression", cases, 16, || pc_case(if thorough { 10 } else { 8 }), path_compression);
+    let cases = ctx.tier.pick(250, 6_000);
+    ctx.run_sub("threads", cases, 8, || thread_case(if thorough { 11 } else { 10 }), threads);
 }
